@@ -55,7 +55,12 @@ CEX_GROUPS = {
     "JsonPath::query": ["text_plain", "text_union"], "JsonPath::query_only_path": ["text_plain", "text_union"], "JsonPath::query_with_path": ["text_plain", "text_union"],
     "Data::flat_map": ["e2e"], "Data::reduce": ["e2e"], "State::flat_map": ["e2e"], "State::reduce": ["e2e"], "Segment::process": ["e2e"], "Selector::process": ["e2e"],
     "Vec<Segment>::process": ["e2e"], "JpQuery::process": ["e2e"],
+    # stand-in for the Kani comparison harnesses when they do not build against a tree: comparisons through the public evaluator
+    "kani:cmp": ["e2e_cmp"],
 }
+# a per-unit group that does not compile against a tree -> the groups that reach the same functions through the public evaluator
+GROUP_FALLBACK = {"cmp_struct": ["e2e_cmp"], "arith": ["text_arith", "e2e"], "name_lookup": ["e2e", "text_plain"], "descendant": ["e2e"], "selectors": ["e2e", "text_union"],
+                  "regex": ["e2e_fn"], "pointer_text": ["e2e"]}
 TARGET = os.path.join(VERIF, "native", "target")
 
 
@@ -221,8 +226,15 @@ def run_for(run):
     ev = run.bounded
     for (g, prefixes), r in zip(spec, res):
         if r.get("unavailable"):
-            run.undecided.append(f"bounded group {g}: not available against this tree (it calls private functions of {', '.join(BUCKETS.get(r['unavailable'], [r['unavailable']]))}, "
-                                 f"whose signatures changed); its obligations {prefixes} are undecided")
+            why = (f"bounded group {g} is not available against this tree (it calls private functions of {', '.join(BUCKETS.get(r['unavailable'], [r['unavailable']]))}, "
+                   f"whose signatures changed)")
+            # the same functions are reached through the public evaluator by another group: that group stands in (resolved by the driver)
+            fb = GROUP_FALLBACK.get(g)
+            if fb:
+                run.standin_candidates.append((f"group:{g}", why, {"unit": f"bounded group {g}", "backend": "native-bounded", "status": "undecided", "reason": why}))
+                CEX_GROUPS[f"group:{g}"] = fb
+            else:
+                run.undecided.append(why + f"; its obligations {prefixes} are undecided")
             continue
         ev["evaluations"] = ev.get("evaluations", 0) + r["evaluations"]
         ev["distinct_nontrivial"] = ev.get("distinct_nontrivial", 0) + r["distinct_nontrivial"]
